@@ -14,7 +14,7 @@ checks = {
    text="every leaf transform with its parameter menu, every match operator x argument x carrier, systematic glob patterns x values, all ordered pairs of a 24-leaf menu, leaves under every control context to depth 2/3, all if/switch/block nestings over marker and drop leaves, sampling rates 1..99 x every prefix up to 300 matched records; oracle: fields, Unescaped flag, PASS/DROP and label counts equal the reference interpreter; second record through the same instance",
    note="nesting grammar at depth >=2 restricted in breadth (see harness/seq_transform/README.md); addFields pair order undefined, only order-independent pair sets; 4 known findings in the third-party glob matcher"),
  "C16": dict(cat="exploration", engine="seq", tech="exhaustive enumeration of (site x invalid-kind) configuration mutants and of a bounded grammar of valid configurations through the real loader, then full instantiation and a record menu", ref="DESIGN.md §5 C16",
-   text="sample configuration + ~40 minimal base files; every YAML node naming a field/capture/template/pattern/bound/size/type/section is a site, every applicable invalid kind is applied; ParseConfigFile must return; accepted files are fully instantiated (parser with extractions, transforms, rewriters, serializers, chunk makers, real orchestrator with pipelines and hybrid buffers, inputs) and process a 38-record menu without panic; valid side: leaf transforms alone, in ordered pairs and nested to depth 2, orchestrators x outputs",
+   text="sample configuration + ~40 minimal base files; every YAML node naming a field/capture/template/pattern/bound/size/type/section is a site, every applicable invalid kind is applied; ParseConfigFile must return; accepted files are fully instantiated (parser with extractions, transforms, rewriters, serializers, chunk makers, real orchestrator with pipelines and hybrid buffers, inputs) and process a 38-record menu without panic; valid side: leaf transforms alone, in ordered pairs and nested to depth 2, orchestrators x outputs; role products: every subset of Fluentd field roles per field, and orchestration keys x metricKeys",
    note="silent acceptance of values that never panic (unknown hiddenFields entry, negative duration, empty output name) tolerated; see harness/seq_config/README.md"),
  "C17": dict(cat="model_checking", engine="vsched+explore", tech=MC, ref="DESIGN.md §5 C17",
    text="all interleavings within the preemption bound of two connection threads, the real SIGHUP goroutine of run.ReloadableOrchestrator and the moment(s) of SIGHUP, at the orchestrator API with recording downstream orchestrators: distinct and reused client numbers, reload succeeding and failing, two reloads; oracles: no record handed to a shut-down pipeline set, every accepted record delivered exactly once, no sink closed by another connection, no nil-sink panic, failed reload has no effect but the failure count",
@@ -36,13 +36,13 @@ checks = {
    note="as C01; equations from metric help strings and DESIGN Appendix A.5"),
  "C06": dict(cat="exploration", engine="seq", tech=SEQ + " (all ordered pairs of key tuples over a 10-value alphabet incl. empty string and separators)", ref="DESIGN.md §5 C06",
    text="real byKeySet orchestrator with real pipelines and hybrid buffers on a scratch root and a capturing consumer; all tuples over {'', a, b, ab, ',', 'a,', '.', '/', NUL, e-acute} for 1-2 key fields (quick) / 3 (thorough); for every ordered pair of distinct tuples one record each, both arrival orders, one and two connections, 4 tag templates; then Shutdown and a second orchestrator through StartOrchestrator on the same root; oracles: different pipelines/chunks/queue directories, tag = reference expansion of the template on the record's own tuple, queued chunks reattached at startup to the pipeline of the tuple that produced them",
-   note="buffer channel size and message limit scaled down for allocation cost only; tags need not be injective (compared with the reference expander)"),
+   note="buffer channel size and message limit scaled down for allocation cost only; tags need not be injective (compared with the reference expander); part 2 (agentmc -prop C06, cooperative scheduler): the composed agent fed with pooled-size records of two key sets over recycled input buffers, single-variable and multi-variable tag templates: tag, ID and queue directory of a pipeline must not change after the record that created it was released"),
  "C07": dict(cat="exploration", engine="seq", tech=SEQ + " (boundary-menu product, all one-edit neighbours, all short prefix strings; sentinels around every bad record)", ref="DESIGN.md §5 C07",
    text="record level on the real agent core built from the sample configuration (parsing receiver with extraction transforms, byKeySet orchestrator, real LogProcessingWorker handlers run inline via an overlay accessor, both serializers and chunk makers, capture + independent decoding), scaled and shipped limits: (A) full product of per-token boundary menus, (B) all one-edit neighbours (256 substitutions, deletion, 256 insertions per position) of five seed records, (C) all strings over {<,1,>,space,-,a} up to length 7/8 + valid-looking tail; each bad record between two sentinels; oracle: no panic / fatal / hang, sentinels delivered intact and in order, every line counted once, delivered = passed per output",
-   note="record level + stream level (harness/seq_stream: S1, BAD, S2, S3 through the real multiLineReader at the shipped 1:4 limit/buffer proportion, 28 bad kinds, all 1-/2-cut fragmentations x flush ticks; S2 and S3 must come out byte-identical); listener level (harness/seq_listener: real tcplistener on loopback sockets, 14 bad stretches x {close, half-close, reset, cut mid-record} x 4 write fragmentations x {alone, second connection open}, a NEW connection must be accepted and served; real threads, not under the scheduler); one known finding (record behind an over-limit line cut by the overflow handling)"),
+   note="record level + stream level (harness/seq_stream: S1, BAD, S2, S3 through the real multiLineReader at the shipped 1:4 limit/buffer proportion, 28 bad kinds, all 1-/2-cut fragmentations x flush ticks; S2 and S3 must come out byte-identical); listener level (harness/seq_listener: real tcplistener on loopback sockets, 14 bad stretches x {close, half-close, reset, cut mid-record} x 4 write fragmentations x {alone, second connection open}, a NEW connection must be accepted and served; plus 60 sequential clients per disconnect kind after which the process's open descriptors must not have grown; real threads, not under the scheduler); one known finding (record behind an over-limit line cut by the overflow handling)"),
  "C08": dict(cat="exploration", engine="seq", tech=SEQ + " (all 0-,1-,2-cut fragmentations x all flush placements against a line-based reference framer)", ref="DESIGN.md §5 C08, Appendix A.1",
    text="real tcplistener.multiLineReader with a scripted read function: every sequence of 2-3 (thorough 2-4) records over six kinds (single line, 1-2 continuation lines, garbage shaped like a head prefix, empty lines) x ALL 0/1/2-cut splits (3-cut for the shortest streams) x ALL 2^(#fragments) flush placements, at scaled sizes (limit 64 / buffer 192) and the shipped sizes, plus over-limit streams; oracle: without flushes identical records for every fragmentation; single-line streams identical under every flush placement; every head exactly once and in order; continuation attached unless a flush fell between",
-   note="runConnection's deadline logic itself is not driven (flushes are placed between reads, which is all it can do); over-limit records under the weaker byte-conservation oracle as documented"),
+   note="part 2 (seq_listener -prop C08, real loopback socket, real runConnection): a connection that outlived one read-deadline renewal receives a multi-line record of 1-3 continuation lines split at every line boundary into two segments 5 ms apart; it must come out as one unit (attempts whose measured window exceeded 3 s are repeated, never judged); over-limit records under the weaker byte-conservation oracle as documented"),
  "C09": dict(cat="exploration", engine="seq", tech=SEQ, ref="DESIGN.md §5 C09, Appendix A.2",
    text="all PRI 0..191 x level mappings x schemas, out-of-range PRI menu, full product of header token menus (8^6 quick / 12^6 thorough), message bodies around the message and record limits x rune classes, histories of mixed lines; oracle: reference parser, facility/level mapping, truncation prefix/UTF-8/overflow count, exact passed+dropped accounting (count and bytes)",
    note="limits scaled down in one variant and shipped limits in another; see harness/seq_parse/README.md for tolerances"),
@@ -57,7 +57,7 @@ checks = {
    note="fluentdforward limits scaled via an overlay accessor; the chunk-ID clock is controlled through a textual time.Now seam in an overlay copy of chunkidgen.go (skipped and reported if the file changes shape); a clock stepping backwards is outside the stated domain"),
  "C12": dict(cat="exploration", engine="seq", tech=SEQ + " (differential: each record alone on a fresh pipeline vs. after every sequence of other records on a long-lived one)", ref="DESIGN.md §5 C12",
    text="14 record shapes (short, pooled-size, optional fields absent, escaped, multi-line, truncate / mapValue / addFields / redactEmail triggers); all sequences with repetition of length <=3 (quick) / <=4 (thorough) on one long-lived pipeline vs each record alone on a fresh one; outputs fluentd, fluentd+fluentd, fluentd+datadog, datadog; three feeding modes incl. two connections alternating; pooling verified in effect by pointer identity (vacuity guard); oracle: decoded output per record identical in both runs for each output, and identical across identical outputs",
-   note="the stage behind the parser sink repeats LogProcessingWorker.onInput rather than running the worker goroutine (the concurrent part is covered by the composed model-checking harness); contamination inside one record is invisible to the differential oracle"),
+   note="the stage behind the parser sink repeats LogProcessingWorker.onInput rather than running the worker goroutine (the concurrent part is covered by the composed model-checking harness); contamination inside one record is invisible to the differential oracle; absolute guard next to it: the lines are fed from one reused read buffer and no field of an emitted record may point into it"),
  "C13": dict(cat="exploration", engine="seq", tech="bounded-exhaustive enumeration of inputs against an independent integer reference model (all fractions up to 6/9 digits, all offsets, all short strings over a 9-symbol alphabet, all one-edit neighbours)", ref="DESIGN.md §5 C13",
    text="complete enumeration of the stated finite input domains through the exported parseTime transform; exactness to the nanosecond against days-from-civil integer arithmetic; totality (no panic) and error+count+fallback for strings not shaped like a date-time",
    note="valid timestamps outside the enumerated date/offset/fraction grid are not covered; leap second and non-digit digit positions only checked for totality"),
